@@ -25,7 +25,7 @@ POOLED = ('central', 'forward', 'backward')
 COVERAGE_MIN = 0.80
 Q50_MAX = 0.4
 Q90_MAX = 2.0
-POOL_MIN = 300
+POOL_MIN = 150
 
 
 @st.composite
